@@ -1,14 +1,14 @@
 ---- MODULE MC_Lifecycle ----
 EXTENDS Lifecycle
 \* the code as it stands in /repo (every as-is behaviour switched on)
-AsIs == {"syncOpenNoWake", "pingSelfJoin", "sendNoFinally", "sendReread", "dispReread", "closeReread",
+AsIs == {"syncOpenNoWake", "stopJoins", "pingSelfJoin", "sendNoFinally", "sendReread", "dispReread", "closeReread",
          "errReread", "staleFetcher", "errStateRace", "errInSender", "openReread", "dispStalePk", "updDoubleRelease"}
 Repaired == {}
 AllFaults == {"sender", "driver", "cf1", "cf2"}
 LinkFaults == {"sender", "driver"}
 Bug_syncOpenNoWake == {"syncOpenNoWake"}
-Bug_errInSender == {"errInSender"}
-Bug_pingSelfJoin == {"errInSender", "pingSelfJoin"}
+Bug_errInSender == {"errInSender", "stopJoins"}
+Bug_pingSelfJoin == {"errInSender", "stopJoins", "pingSelfJoin"}
 Bug_sendNoFinally == {"sendReread", "sendNoFinally"}
 Bug_sendReread == {"sendReread"}
 Bug_dispReread == {"dispReread"}
